@@ -211,6 +211,38 @@ def check_case_impl(ctx, case, tab):
     # 3. Keyvalues operators
     if kind in ('kv', 'kvroot'):
         check_kv_ops(ctx, case, tab)
+    # 4. the keep_vis=False option of Entity.copy / Solid.copy
+    if kind in ('rich', 'entity', 'brush_entity', 'solid'):
+        check_keep_vis(ctx, case, tab)
+
+
+def check_keep_vis(ctx, case, tab):
+    """copy(keep_vis=False): the copy is the original with hidden/vis flags and visgroup ids reset — and independent."""
+    vmf, kvm, sm = M.get()
+    inp = dict(case, keep_vis=False)
+    home, other, o = build(case)
+    cp = o.copy(vmf_file=other if case['across'] else None, keep_vis=False)
+    _, _, ref = build(case)               # the same object again (generation is deterministic)
+    ref.hidden, ref.vis_shown, ref.vis_auto_shown = False, True, True
+    ref.visgroup_ids = set()
+    ctx.count('keep_vis=False')
+    if U.export_text(ref, True) != U.export_text(cp, True):
+        ctx.witness('keepvis:export', f'{type(o).__name__}.copy(keep_vis=False): exported text differs from the original with its visibility reset', inp)
+        return
+    W = U.Walker(tab)
+    orig_ids = {id(x) for x in W.reach(o)}
+    for x in W.reach(cp):
+        if id(x) in orig_ids and W.cls_of(x)[1]:
+            ctx.witness('keepvis:shared:' + _owner_key(W, cp, x), f'{type(o).__name__}.copy(keep_vis=False) shares the mutable {type(x).__name__} at {_owner_key(W, cp, x)} with its source', inp)
+            return
+    for mutated, watched in ((cp, o), (o, cp)):
+        before = U.export_text(watched)
+        U.brutal_mutation(W, mutated, random.Random('kvis:' + case['seed']))
+        if U.export_text(watched) != before:
+            ctx.witness('keepvis:visible', f'{type(o).__name__}.copy(keep_vis=False): mutating one side is visible through the other', inp)
+            return
+        home, other, o = build(case)
+        cp = o.copy(vmf_file=other if case['across'] else None, keep_vis=False)
 
 
 def export_pair(o, cp):
